@@ -266,6 +266,21 @@ theorem compensating_release_overtaken_counterexample :
       (acquire cfg (stateAfter cfg log) l 3 now).2 = false :=
   ⟨{ U := 10 }, ⟨2, 0⟩, 1, 100, 106, 119, _, by decide, by decide, rfl, by decide, by decide⟩
 
+/-- **D73c, repaired code (`comp = true`): the compensating release is LOST on its way** (dropped with
+MISSING_LEADER when `commandsWaitLeader` is off, or sent on a dead connection): the wrapper does submit it, but it
+never enters the log; the acquire (attempt at 100, told `LEADER_CHANGED` at 106, U = 10) is committed and prolonged
+(107 … 119): at 119 the client considers the lock held and a competitor is refused.  Recorded finding
+`…:failed-acquire-kept:compensating-release-lost`. -/
+theorem compensating_release_lost_counterexample :
+    ∃ (cfg : Cfg) (c : Client) (l att acq now : Nat) (log : List Cmd),
+      cfg.U < 2 * (acq - att) ∧
+      (c.tryAcquireFinish cfg l att acq none true true).2 = [.release l c.self] ∧ Cmd.release l c.self ∉ log ∧
+      log = c.tryAcquireCmd l att :: [Cmd.prolongate c.self 107, .prolongate c.self 110, .prolongate c.self 113,
+        .prolongate c.self 116, .prolongate c.self 119] ∧
+      c.isAcquired cfg (stateAfter cfg log) l now = true ∧
+      (acquire cfg (stateAfter cfg log) l 3 now).2 = false :=
+  ⟨{ U := 10 }, ⟨2, 0⟩, 1, 100, 106, 119, _, by decide, by decide, by decide, rfl, by decide, by decide⟩
+
 /-- **D73, code before the repair (`comp = false`): told failed, lock kept.**  The wrapper submits nothing for
 a failure with an open outcome; the acquire (attempt at 100, U = 10) is committed after the client was told
 `LEADER_CHANGED` at 106 (> U/2); the client's prolongation pass prolongs every lock of the client (109, 112,
